@@ -1779,6 +1779,14 @@ def f_failed_attempt_link_open():
     return _script("C14_failed_attempt_link_open.py")
 
 
+@finding("C13/retry-starved/sends-postpone-reconnect", "C13")
+def f_sends_postpone_reconnect():
+    """fault sequences through the three sending clients on localhost (a seeded change's demonstration, which found this on the unmodified tree):
+    after dd85ad2 every failing send() pushed the reconnect task's wait forward, so a link reset while the application keeps sending was never
+    re-established"""
+    return _script("C13_sends_postpone_reconnect.py", timeout=170)
+
+
 def run(keys=None):
     out = {}
     for k, (prop, fn) in FINDINGS.items():
